@@ -7,9 +7,11 @@
    G : gpr_api  -- GPR.from_string/to_string (property C08), a parameter here
    C : cfg      -- Configuration().bounds
    rt s m       -- the model one trip returns: objective direction max, compartment None -> "",
-                   the private compartment table re-derived from the public one, lists sorted when s. *)
+                   the private compartment table re-derived from the public one, lists sorted when s.
+   comps_closed m -- the trip invents no compartment: no metabolite has compartment None, or some
+                   metabolite has the empty string as compartment anyway (comps_some m implies it). *)
 From Coq Require Import ZArith QArith List Bool.
-From Cobra.IO Require Import Str JVal DictModel DictProofs DictCheck.
+From Cobra.IO Require Import Str JVal DictModel DictProofs DictCheck DictComps DictResave DictLoadTotal DictNecessity.
 From Cobra.Gen Require Import Config DictTables.
 Import ListNotations.
 Open Scope Z_scope.
@@ -73,10 +75,13 @@ Proof.
 Qed.
 Print Assumptions C11_load_total_at_once.
 
-(* Repeating the trip changes nothing -- except that the private compartment table is re-derived from
-   the public one (full statement: rt s (rt s m) = rt s m; missing: public_comps is a fixpoint). *)
+(* Repeating the trip changes nothing.  The statement at full strength (rt s (rt s m) = rt s m for every
+   m) is FALSE of the faithful model: a metabolite whose compartment is None comes back with the empty
+   string (known finding), and only the second trip adds an item for the empty string to the private
+   table and to the document (C11_dict_idempotent_refuted below).  It holds exactly when comps_closed m. *)
 Definition dict_idempotent_statement : Prop := forall s m, rt s (rt s m) = rt s m.
 
+(* (kept) a second trip changes at most the re-derived private compartment table *)
 Theorem C11_dict_idempotent_partial :
   forall G C T s m, tables_ok T = true -> valid G m = true -> model_loadable C (t_bounds_at_once T) m = true ->
     exists d, to_dict T s (rt s m) = Ok d /\
@@ -85,6 +90,77 @@ Proof.
   intros G C T s m HT Hv HL. rewrite <- rt_rt. apply roundtrip; auto using valid_rt, loadable_rt.
 Qed.
 Print Assumptions C11_dict_idempotent_partial.
+
+(* the public_comps fixpoint lemma: after one trip the re-derived compartment table is stable *)
+Theorem C11_public_comps_fixpoint :
+  forall s m, comps_closed m = true -> dsort (public_comps (rt s m)) = dsort (public_comps m).
+Proof. exact comps_fix. Qed.
+Print Assumptions C11_public_comps_fixpoint.
+
+(* the exact domain of the full statement *)
+Theorem C11_rt_idempotent_iff : forall s m, rt s (rt s m) = rt s m <-> comps_closed m = true.
+Proof. exact rt_idem_iff. Qed.
+Print Assumptions C11_rt_idempotent_iff.
+
+(* a second trip returns the same model again *)
+Theorem C11_dict_idempotent :
+  forall G C T s m, tables_ok T = true -> valid G m = true -> model_loadable C (t_bounds_at_once T) m = true ->
+    comps_closed m = true ->
+    exists d, to_dict T s (rt s m) = Ok d /\ from_dict G T C d = Ok (rt s m).
+Proof. exact dict_idempotent. Qed.
+Print Assumptions C11_dict_idempotent.
+
+(* "saving the loaded model again gives the same document": whatever the direction and the private
+   compartment table are *)
+Theorem C11_resave_same_document :
+  forall G C T s m d m', tables_ok T = true -> valid G m = true ->
+    model_loadable C (t_bounds_at_once T) m = true -> comps_closed m = true ->
+    to_dict T s m = Ok d -> from_dict G T C d = Ok m' -> to_dict T s m' = Ok d.
+Proof. exact resave. Qed.
+Print Assumptions C11_resave_same_document.
+
+(* ... as a corollary of the identity, under the same hypotheses *)
+Theorem C11_dict_roundtrip_resave :
+  forall G C T s m, tables_ok T = true -> valid G m = true -> model_loadable C (t_bounds_at_once T) m = true ->
+    dir_max m = true -> comps_some m = true -> comps_canonical m ->
+    exists d, to_dict T s m = Ok d /\ from_dict G T C d = Ok (sorted_model s m) /\
+              to_dict T s (sorted_model s m) = Ok d.
+Proof. exact roundtrip_resave. Qed.
+Print Assumptions C11_dict_roundtrip_resave.
+
+(* The identity without comps_canonical (a hypothesis on the PRIVATE _compartments that a model built
+   with add_metabolites alone does not meet): everything but the private table comes back, the public
+   Model.compartments is the same, and saving again gives the same document. *)
+Theorem C11_dict_roundtrip_public :
+  forall G C T s m, tables_ok T = true -> valid G m = true -> model_loadable C (t_bounds_at_once T) m = true ->
+    dir_max m = true -> comps_some m = true ->
+    exists d m', to_dict T s m = Ok d /\ from_dict G T C d = Ok m' /\
+      set_comps m' (a_comps m) = sorted_model s m /\
+      dsort (public_comps m') = dsort (public_comps (sorted_model s m)) /\
+      to_dict T s m' = Ok d.
+Proof. exact roundtrip_public. Qed.
+Print Assumptions C11_dict_roundtrip_public.
+
+(* Loading what was saved: model_loadable is necessary and sufficient (it is empty for the
+   both-at-once loader), so it cannot be dropped from C11_load_total_partial for an arbitrary table. *)
+Theorem C11_load_total_iff :
+  forall G C T s m, tables_ok T = true -> valid G m = true ->
+    ((exists d m', to_dict T s m = Ok d /\ from_dict G T C d = Ok m') <->
+     model_loadable C (t_bounds_at_once T) m = true).
+Proof. exact load_total_iff. Qed.
+Print Assumptions C11_load_total_iff.
+
+(* Every hypothesis of C11_dict_roundtrip_partial is needed: for each of the 20 conjuncts of valid
+   and each of the 5 other hypotheses a model that meets all the others and does not come back
+   (IO/DictNecessity.v; fails G T i m: valid_parts is false exactly at i, the other hypotheses hold,
+   and the trip does not return sorted_model false m). *)
+Theorem C11_valid_conjuncts_needed : forall i, In i (seq 1 20) -> exists G m, fails G Tb i m.
+Proof. exact valid_conjuncts_needed. Qed.
+Print Assumptions C11_valid_conjuncts_needed.
+
+Theorem C11_other_hypotheses_needed : forall i, In i (seq 1 5) -> exists T m, fails_other T i m.
+Proof. exact other_hypotheses_needed. Qed.
+Print Assumptions C11_other_hypotheses_needed.
 
 (* ---------------------------------------------------------------- the tie to the source *)
 Example C11_tables_current : tables_ok current_tables = true.
@@ -121,6 +197,44 @@ Example C11_load_total_refuted_one_at_a_time :
     to_dict (ref_tables false) false m = Ok d /\ from_dict check_gpr (ref_tables false) C0 d = Err EValue /\
     from_dict check_gpr (ref_tables true) C0 d = Ok m.
 Proof. exists (model_of (Some [99]) (Fin 1500) (Fin 2000) 0 true). eexists. vm_compute. repeat split. Qed.
+
+(* Loading what the CURRENT source saved: unconditional when the source sets both bounds at once,
+   refuted otherwise (whichever the regenerated table says). *)
+Definition load_total_current : Prop :=
+  forall G C s m, valid G m = true ->
+    exists d m', to_dict current_tables s m = Ok d /\ from_dict G current_tables C d = Ok m'.
+
+Theorem C11_load_total_current :
+  if t_bounds_at_once current_tables then load_total_current else ~ load_total_current.
+Proof.
+  destruct (t_bounds_at_once current_tables) eqn:E.
+  - intros G C s m Hv. apply C11_load_total_at_once; [exact C11_tables_current|exact E|exact Hv].
+  - intros H. specialize (H check_gpr C0 false (model_of (Some [99]) (Fin 1500) (Fin 2000) 0 true) eq_refl).
+    apply (C11_load_total_iff check_gpr C0 current_tables false
+             (model_of (Some [99]) (Fin 1500) (Fin 2000) 0 true) C11_tables_current eq_refl) in H.
+    rewrite E in H. vm_compute in H. discriminate H.
+Qed.
+Print Assumptions C11_load_total_current.
+
+(* the second trip of a model with a compartment None: the private table and the document gain an
+   item for the empty string (a consequence of the known finding: compartment None is saved as the
+   empty string) *)
+Example C11_dict_idempotent_refuted :
+  exists m d1 m1 d2 m2, valid check_gpr m = true /\ model_loadable C0 false m = true /\ dir_max m = true /\
+    to_dict (ref_tables false) false m = Ok d1 /\ from_dict check_gpr (ref_tables false) C0 d1 = Ok m1 /\
+    to_dict (ref_tables false) false m1 = Ok d2 /\ from_dict check_gpr (ref_tables false) C0 d2 = Ok m2 /\
+    a_comps m1 = [] /\ a_comps m2 = [([], [])] /\ public_comps m1 = public_comps m2 /\ d2 <> d1.
+Proof.
+  exists (model_of None (Fin 0) (Fin 1000) 0 true). do 4 eexists. vm_compute. repeat split.
+  intro H. discriminate H.
+Qed.
+
+Theorem C11_dict_idempotent_statement_refuted : ~ dict_idempotent_statement.
+Proof.
+  intros H. specialize (H false (model_of None (Fin 0) (Fin 1000) 0 true)).
+  apply C11_rt_idempotent_iff in H. vm_compute in H. discriminate H.
+Qed.
+Print Assumptions C11_dict_idempotent_statement_refuted.
 
 (* non-vacuity: a model with awkward content satisfies every hypothesis of the partial theorem *)
 Definition demo : amodel :=
